@@ -174,7 +174,23 @@ fn deviate<G: CurveTag>(ch: &mut Choices, prog: &Program, commitments: &[G], pm:
                     }
                 }
             }
-            let site = sites[ch.below(sites.len())];
+            // prefer gates whose two operands name the same variables in the same order
+            let related: Vec<(ListRef, usize)> = sites
+                .iter()
+                .copied()
+                .filter(|(l, j)| {
+                    let ops: &Vec<Op> = match l {
+                        None => &p.ops,
+                        Some(k) => match &p.ops[*k] {
+                            Op::Closure(b) => b,
+                            _ => unreachable!(),
+                        },
+                    };
+                    matches!(&ops[*j], Op::Mul { left, right } if !left.is_empty() && left.len() == right.len() && left.iter().zip(right.iter()).all(|(a, b)| a.0 == b.0))
+                })
+                .collect();
+            let pool = if !related.is_empty() && ch.chance(200) { &related } else { &sites };
+            let site = pool[ch.below(pool.len())];
             let right_side = ch.chance(128);
             let d = ScalarSpec::gen_nonzero(ch);
             let mut decided = false;
